@@ -31,6 +31,7 @@ type access struct {
 var benignWriters = map[string]string{
 	"(*nodeLoc).setLoc":    "records the file location of a node after it was written (same value for all readers)",
 	"(*nodeLoc).setNode":   "caches a node loaded from the file",
+	"(*nodeLoc).casNode":   "caches a node loaded from the file unless another reader already did",
 	"(*itemLoc).setLoc":    "records the file location of an item after it was written",
 	"(*itemLoc).casItem":   "caches / evicts an item loaded from the file",
 	"populateNode":         "initialises a freshly allocated node that is only afterwards published through setNode",
@@ -172,11 +173,11 @@ func classifyPair(a, b access) string {
 		if benignWriters[wi] == "" {
 			return "unclassified-writer"
 		}
-		// a benign (cache publication) writer: the other side may be any reader or
-		// another publication, but not an access from inside the allocator / pin code
-		if c := isCritical(o); c != "" {
-			return "critical"
-		}
+		// a benign writer (cache publication, or initialisation of a freshly loaded
+		// object before its unsynchronised publication): the other side may be any
+		// reader - also the mutator's own code that walks nodes reached through the
+		// cache pointers - or another publication.  A critical WRITER on the other
+		// side is caught by the second orientation of this loop.
 	}
 	return ""
 }
